@@ -183,7 +183,7 @@ Lemma reconstruct_msgids st round p batch src parts sigs :
   reconstruct st round p batch src parts = Some sigs ->
   NoDup (map rs_msgid sigs) /\ forall s, In s sigs -> rs_batch s = batch /\ rs_round s = round.
 Proof.
-  unfold reconstruct. destruct (tget' (ns_srcs st) src) as [tasks|]; [|discriminate].
+  unfold reconstruct. destruct (match tget' (ns_srcs st) round with Some m0 => tget' m0 src | None => None end) as [tasks|]; [|discriminate].
   destruct (p_dkg p) as [dk|]; [|discriminate]. cbv zeta.
   pose proof (group_signs_nodup parts [] (NoDup_nil _)) as Hn.
   revert sigs Hn. generalize (group_signs parts []). intros groups.
